@@ -5,7 +5,7 @@
    matrices - and the literal base matrices of the regenerated zero-argument functions must be the tables base3. *)
 From Coq Require Import String Ascii List ZArith QArith Qcanon Bool Arith Lia.
 From QV.Core Require Import OF Sums Mat C17_Z8.
-From QV.Model Require Import C17_Tables C17_Names C17_PySem.
+From QV.Model Require Import C17_Tables C17_Names C17_PySem C17_Permute C17_Ham3q.
 From QV.Proofs Require Import C17_Tables C17_Names.
 From QVGen Require Import Gen_c17_names.
 Import ListNotations.
@@ -61,3 +61,59 @@ Theorem C17gen_parser_rejects_malformed :
   forallb (fun n => is_err (gen_ham2 n)) ["01x90"; ""; "01xi90_"; "_01xi90"; "01xi45"; "03xi90"; "01x01x01x90"; "i90"; "01xi"; "01wi90"] = true.
 Proof. vm_compute. reflexivity. Qed.
 Print Assumptions C17gen_parser_rejects_malformed.
+
+(* ================= id bookkeeping of the multi-qubit gates, REGENERATED from get_permutation_matrix_from_ascending_order,
+   permute_pauli_symbol, convert_*, is_no_duplication_list: on a bounded domain the translated code IS the hand-written model of
+   Model/C17_Permute.v, for which Props/C17.v proves the specification for ALL lengths and id lists (C17_permute_fixed_spec). *)
+Fixpoint nat_nodupb (l : list nat) : bool := match l with [] => true | x :: r => negb (existsb (Nat.eqb x) r) && nat_nodupb r end.
+(* all lists of n pairwise different ids below vals *)
+Definition ids_lists (vals n : nat) : list (list nat) := filter nat_nodupb (nprod (seq 0 vals) n).
+Definition vints (l : list nat) : pyv := VList (map (fun x => VInt (Z.of_nat x)) l).
+Definition letter (k : nat) : string := match k with 0%nat => "i" | 1%nat => "x" | 2%nat => "y" | _ => "z" end.
+Definition symbol_of (l : list nat) : string := String.concat "" (map letter l).
+Definition is_imat (r : pres pyv) (rows : list (list Z)) : bool :=
+  match r with
+  | POk (VIMat m) => Nat.eqb (List.length m) (List.length rows) &&
+                     forallb (fun p => Nat.eqb (List.length (fst p)) (List.length (snd p)) && forallb (fun q => Z.eqb (fst q) (snd q)) (combine (fst p) (snd p))) (combine m rows)
+  | _ => false end.
+Definition is_str (r : pres pyv) (s : string) : bool := match r with POk (VStr t) => String.eqb s t | _ => false end.
+Definition matP_rows (ids : list nat) : list (list Z) :=
+  let n := List.length ids in map (fun i => map (fun j => if matP ids i j then 1%Z else 0%Z) (seq 0 n)) (seq 0 n).
+(* the domain: 1 - 3 pairwise different ids below 5 (85 lists), every Pauli symbol of that length *)
+Definition perm_domain : list (list nat) := (ids_lists 5 1 ++ ids_lists 5 2 ++ ids_lists 5 3)%list.
+
+Theorem C17gen_permutation_matrix_bounded :
+  forall ids, In ids perm_domain -> is_imat (g_get_permutation_matrix_from_ascending_order (vints ids)) (matP_rows ids) = true.
+Proof. apply forallb_forall. vm_compute. reflexivity. Qed.
+Print Assumptions C17gen_permutation_matrix_bounded.
+
+Theorem C17gen_permute_pauli_symbol_bounded :
+  forall ids, In ids perm_domain -> forall v, In v (nprod [0; 1; 2; 3]%nat (List.length ids)) ->
+    is_str (g_permute_pauli_symbol (VStr (symbol_of v)) (vints ids)) (symbol_of (permute_fixed ids v)) = true.
+Proof. intros ids Hi.
+  assert (A : forallb (fun ids => forallb (fun v => is_str (g_permute_pauli_symbol (VStr (symbol_of v)) (vints ids)) (symbol_of (permute_fixed ids v)))
+                                         (nprod [0; 1; 2; 3]%nat (List.length ids))) perm_domain = true) by (vm_cast_no_check (@eq_refl bool true)).
+  rewrite forallb_forall in A. specialize (A ids Hi). now rewrite forallb_forall in A. Qed.
+Print Assumptions C17gen_permute_pauli_symbol_bounded.
+
+(* ids with a repetition are rejected (AssertionError of is_no_duplication_list), symbols of another length too *)
+Theorem C17gen_permute_rejects :
+  forallb (fun ids => is_err (g_permute_pauli_symbol (VStr (symbol_of (map (fun _ => 1%nat) ids))) (vints ids)))
+          (filter (fun l => negb (nat_nodupb l)) (nprod [0; 1; 2]%nat 2 ++ nprod [0; 1; 2]%nat 3)%list) = true /\
+  is_err (g_permute_pauli_symbol (VStr "ix") (vints [0; 1; 2]%nat)) = true /\ is_err (g_permute_pauli_symbol (VStr "iwx") (vints [0; 1; 2]%nat)) = true.
+Proof. repeat split; vm_compute; reflexivity. Qed.
+Print Assumptions C17gen_permute_rejects.
+
+(* the Hamiltonians of toffoli and fredkin, for every one of the 60 lists of three pairwise different ids below 5 (contiguous or not):
+   the translated code yields exactly  sum_t sign_t (pi/8) * Pauli3[index of the role string t re-ordered by the ids]  (Model/C17_Ham3q.v),
+   which is -pi times a projector whose reflection is the table gate (Proofs/C17_Ham3q.toffoli_fredkin_hamiltonians_are_projectors) *)
+Theorem C17gen_toffoli_fredkin_hamiltonians :
+  forall ids, In ids (ids_lists 5 3) ->
+    is_mat (g_generate_gate_toffoli_hamiltonian_mat (vints ids)) 8 (expected_ham3q 0 ids) = true /\
+    is_mat (g_generate_gate_fredkin_hamiltonian_mat (vints ids)) 8 (expected_ham3q 1 ids) = true.
+Proof. intros ids Hi.
+  assert (A : forallb (fun ids => is_mat (g_generate_gate_toffoli_hamiltonian_mat (vints ids)) 8 (expected_ham3q 0 ids) &&
+                                  is_mat (g_generate_gate_fredkin_hamiltonian_mat (vints ids)) 8 (expected_ham3q 1 ids)) (ids_lists 5 3) = true)
+    by (vm_cast_no_check (@eq_refl bool true)).
+  rewrite forallb_forall in A. specialize (A ids Hi). now apply andb_true_iff in A. Qed.
+Print Assumptions C17gen_toffoli_fredkin_hamiltonians.
